@@ -212,6 +212,19 @@ class Gen:
             off = r.randrange(0, 64 - 8)
             a = r.choice(regs)
             self.emit('mov p0, wbuf')
+            if r.random() < 0.45:
+                # no base register: index * scale [+ disp] is the whole address (index = (address - disp) / scale, so the
+                # access lands at most scale - 1 bytes below wbuf + off: inside the buffer)
+                sc = r.choice([1, 2, 4, 8])
+                disp = r.choice([0, 0, sc, -sc, 16, -24, 4096, -65536])
+                off = r.randrange(8, 40)
+                self.emit('add t8, p0, %d' % (off - disp))
+                self.emit('udiv t8, t8, %d' % sc)
+                m = '%s:%s(, t8%s)' % (ty, disp if disp else '', ', %d' % sc if sc != 1 or r.random() < 0.5 else '')
+                self.emit('mov %s, %s' % (m, a))
+                self.emit('mov t9, %s' % m)
+                self.acc('t9')
+                return
             self.emit('mov %s:%d(p0), %s' % (ty, off, a))
             self.emit('mov t9, %s:%d(p0)' % (ty, off))
             self.acc('t9')
